@@ -527,11 +527,6 @@ func (g *G) constStmt() []Stmt {
 		nm := fmt.Sprintf("c%d", g.uniq)
 		if g.chance(10, "cunderscore") && i > 0 {
 			nm = "_"
-		} else if g.chance(20, "cpoolname") {
-			// a name from the common pool: later scopes re-bind it, earlier ones may have bound it
-			if pn := g.newName(false); g.canDeclare(pn) {
-				nm = pn
-			}
 		}
 		var x Expr
 		if vs := g.varsOf(KInt); (i == 0 || g.chance(35, "cexplicit0")) && len(vs) > 0 && g.chance(22, "calias") {
@@ -556,6 +551,14 @@ func (g *G) constStmt() []Stmt {
 				g.inConst = true
 				x = g.constExpr(KInt, 1)
 				g.inConst = false
+			}
+		}
+		if n == 1 && nm != "_" && g.chance(20, "cpoolname") {
+			// a name from the common pool (single declarations only; chosen AFTER the value so that the
+			// value cannot have used a builtin of that name): later scopes re-bind it, earlier ones may
+			// have bound it
+			if pn := g.newName(false); g.canDeclare(pn) && !mentions(x, pn) {
+				nm = pn
 			}
 		}
 		c.Names = append(c.Names, nm)
@@ -622,6 +625,29 @@ func (g *G) constShadowStmt() []Stmt {
 	out = append(out, observe(&Binary{Op: "+", L: Id(a), R: IntLit(0)}))
 	g.declare(&Var{Name: a, K: KInt, Const: true})
 	return out
+}
+
+// mentions reports whether name occurs as an identifier anywhere in the rendered expression.
+func mentions(x Expr, name string) bool {
+	if x == nil {
+		return false
+	}
+	src := ExprSrc(x)
+	for i := 0; i+len(name) <= len(src); i++ {
+		if src[i:i+len(name)] != name {
+			continue
+		}
+		before := i == 0 || !isIdentByte(src[i-1])
+		after := i+len(name) == len(src) || !isIdentByte(src[i+len(name)])
+		if before && after {
+			return true
+		}
+	}
+	return false
+}
+
+func isIdentByte(b byte) bool {
+	return b == '_' || b >= '0' && b <= '9' || b >= 'a' && b <= 'z' || b >= 'A' && b <= 'Z'
 }
 
 func firstExplicit(vs []Expr) Expr {
